@@ -222,6 +222,15 @@ pub(crate) fn pow(lhs: &Value, rhs: &Value) -> TeraResult<Value> {
             }
 
             let val = match (left, right) {
+                // Powers of -1, 0 and 1 never grow so the exponent does not need to fit in a u32
+                (Number::Integer(a @ (-1 | 0 | 1)), Number::Integer(b)) => {
+                    let val: i128 = match a {
+                        0 if b == 0 => 1,
+                        -1 if b % 2 == 0 => 1,
+                        _ => a,
+                    };
+                    Value::from(val)
+                }
                 (Number::Integer(a), Number::Integer(b)) => {
                     let exp = u32::try_from(b).map_err(|_| {
                         Error::message(format!(
